@@ -641,14 +641,17 @@ func runDefCase(prop string, c *DefCase, res *hx.Result) {
 	res.Eval(string(key), true)
 }
 
-// runFeedback runs a feedback case with growing step limits (6, 8, ... up to the case's own) and stops at the first
+// runFeedback runs a feedback case with growing step limits (2, 3, .. 8, 10, 12, ... up to the case's own) and stops at the first
 // failure: what it looks for grows exponentially with the number of steps, so it is caught while it is still small
 // (the failing input records the step limit at which it was caught)
 var defFailed bool // the last runDefCase reported a failure
 
 func runFeedback(prop string, c *DefCase, res *hx.Result) {
 	top := c.Opts.MaxSteps
-	for st := 6; st <= top && !hung; st += 2 {
+	for st := 2; st <= top && !hung; st++ {
+		if st > 8 && st%2 == 1 {
+			continue
+		}
 		c.Opts.MaxSteps = st
 		if runDefCase(prop, c, res); defFailed {
 			return
